@@ -432,4 +432,110 @@ theorem tag_endLex (cfg : Cfg) (d : Disp (FullSt cfg)) (s : St) (ln : LocalName)
           rw [q1]; exact J2_congr cs hbase.2
         exact ⟨fun _ _ => ⟨q2.idle hi3, hJ4⟩, fun e he => by cases he⟩
 
+/-! ## the invariant has to know the flags of `endLex`
+
+FINDING: `InvX` (Thm/Full12.lean) is not inductive. Its `endLex` case does not relate the dispatcher's capture flags to the
+controller's answer; from an `endLex` state whose flags lack `NEXT_END_TAG` although the controller asked for the token,
+`handle_tag` succeeds without delivering it and ends in a state that is not `J2` — so `Full_scan_opsX_statement InvX` is
+false, although every REACHABLE `InvX` state is fine. `InvY = InvX ∧ EndOK` adds the missing clause (stated on the
+dispatcher state alone: while an end-tag hint is outstanding, an active end-tag handler vector implies `NEXT_END_TAG`). -/
+
+def EndOK {cfg : Cfg} (d : Disp (FullStH cfg)) : Prop :=
+  d.gotFlagsFromHint = true → d.ctl.2 = some false → d.ctl.1.1.disp.endTag.hasActive = true → d.flags.nextEndTag = true
+
+def InvY (cfg : Cfg) (d : Disp (FullStH cfg)) : Prop := InvX cfg d ∧ EndOK d
+
+def UPostY {α : Type} (cfg : Cfg) (r : DRes (FullStH cfg) α) : Prop :=
+  (∀ a, r.2 = .ok a → InvY cfg r.1) ∧ (∀ e, r.2 = .error e → HO e)
+
+theorem rel_of_unaryY {α : Type} {cfg : Cfg} {r1 r2 : DRes (FullStH cfg) α}
+    (hstep : Chunk.R.DStep (fun g : FullStH cfg => Chunk.R.DO cfg g.1)
+      (fun e => Chunk.R.GP e ∧ Chunk.R.CbErr (fullCtl cfg) (Chunk.R.DO cfg) e) r1 r2)
+    (hu : UPostY cfg r1) (hsafe : ∀ e, r2.2 = .error e → ¬ DispOwn e) :
+    (IRel (InvY cfg) r1.1 r2.1 ∧ r1.2 = r2.2) ∨ ∃ e, NP e ∧ r1.2 = .error e := by
+  rcases hstep with ⟨he, _⟩ | ⟨e, ⟨hG, hc⟩, he⟩
+  · cases hr : r1.2 with
+    | ok a =>
+      subst he
+      exact Or.inl ⟨⟨rfl, hu.1 a hr⟩, hr.symm⟩
+    | error e =>
+      right
+      refine ⟨e, ?_, rfl⟩
+      rcases hu.2 e hr with h | h
+      · subst h; trivial
+      · subst he
+        exact absurd h (hsafe e hr)
+  · exact (no_gp hG hc (hu.2 e he)).elim
+
+theorem endOK_of_gf {cfg : Cfg} {d : Disp (FullStH cfg)} (h : d.gotFlagsFromHint = false) : EndOK d := by
+  intro hg; rw [h] at hg; cases hg
+
+theorem endOK_of_ghost {cfg : Cfg} {d : Disp (FullStH cfg)} (h : d.ctl.2 = some true) : EndOK d := by
+  intro _ hk; rw [h] at hk; cases hk
+
+/-- the remaining (operation, protocol state) pairs, without the ghost -/
+def Y_startLex_tag (cfg : Cfg) : Prop :=
+  ∀ (d : Disp (FullSt cfg)) (s : St) (ln : LocalName) (ns : Model.Ns) (f : Model.Flags), J2 cfg s →
+    (startTag s ln ns).2 = .flags f → EqT (startTag s ln ns).1 d.ctl.1 → d.flags = f → d.gotFlagsFromHint = true →
+    d.pendingAux = false → ∀ (inp : Bytes) (lx : TagLexeme), TagArgsOK inp lx → lx.outline.isStart = true →
+    PostT (Disp.handleTag (fullCtl cfg) inp lx d)
+
+def Y_auxPend_tag (cfg : Cfg) : Prop :=
+  ∀ (d : Disp (FullSt cfg)) (s : St) (ln : LocalName) (ns : Model.Ns), J2 cfg s →
+    (startTag s ln ns).2 = .infoRequest → EqT (startTag s ln ns).1 d.ctl.1 → d.gotFlagsFromHint = false →
+    d.pendingAux = true → ∀ (inp : Bytes) (lx : TagLexeme), TagArgsOK inp lx → lx.outline.isStart = true →
+    PostT (Disp.handleTag (fullCtl cfg) inp lx d)
+
+theorem upostY_of_postT {cfg : Cfg} {d : Disp (FullStH cfg)} {inp : Bytes} {lx : TagLexeme}
+    (h : PostT (Disp.handleTag (fullCtl cfg) inp lx (Hom.mapD Prod.fst d))) :
+    UPostY cfg (Disp.handleTag (fullCtlH cfg) inp lx d) := by
+  have hh := Hom.hom_handleTag (hintCtl_hom (fullCtl cfg)) inp lx d
+  rw [← hh] at h
+  refine ⟨fun a ha => ?_, h.2⟩
+  obtain ⟨hi, hJ⟩ := h.1 a ha
+  exact ⟨.idle hi.1 hi.2 hJ, endOK_of_gf hi.2⟩
+
+theorem isStart_cases (o : TagOutline) : (o.isStart = true ∧ ∃ n h ns as sc, o = .startTag n h ns as sc) ∨
+    (o.isStart = false ∧ ∃ n h, o = .endTag n h) := by
+  cases o with
+  | startTag n h ns as sc => exact Or.inl ⟨rfl, n, h, ns, as, sc, rfl⟩
+  | endTag n h => exact Or.inr ⟨rfl, n, h, rfl⟩
+
+/-- **`handle_tag` from every protocol state** (given the two remaining pairs) -/
+theorem U_tag_Y (cfg : Cfg) (hS : Y_startLex_tag cfg) (hA : Y_auxPend_tag cfg) (inp : Bytes) (lx : TagLexeme)
+    (d : Disp (FullStH cfg)) (hI : InvY cfg d) (hv : TagArgsOK inp lx)
+    (hkind : (kindGuard (γ := FullSt cfg)).tag inp lx d = none) :
+    UPostY cfg (Disp.handleTag (fullCtlH cfg) inp lx d) := by
+  obtain ⟨hX, hE⟩ := hI
+  cases hX with
+  | idle hp hg hJ =>
+    have hpost := handleTag_lexer_genV cfg (J2 cfg) _ _ ValidEv (J2_evInvV cfg) (Hom.mapD Prod.fst d) ⟨hp, hg⟩ hJ inp lx
+      (lexV_of_argsOK hv)
+    exact upostY_of_postT ⟨hpost.1, fun e he => ho_of_cg (hpost.2 e he)⟩
+  | startLex s ln ns f hJ ha hc hf hg hp hk =>
+    have hst : lx.outline.isStart = true := by
+      simp only [kindGuard, PendS, hg, hk, beq_self_eq_true, Bool.and_self, Bool.true_or, Bool.true_and] at hkind
+      cases hs : lx.outline.isStart with
+      | true => rfl
+      | false => simp [hs] at hkind
+    exact upostY_of_postT (hS (Hom.mapD Prod.fst d) s ln ns f hJ ha hc hf hg hp inp lx hv hst)
+  | auxPend s ln ns hJ ha hc hg hp =>
+    have hst : lx.outline.isStart = true := by
+      simp only [kindGuard, PendS, hp, Bool.or_true, Bool.true_and] at hkind
+      cases hs : lx.outline.isStart with
+      | true => rfl
+      | false => simp [hs] at hkind
+    exact upostY_of_postT (hA (Hom.mapD Prod.fst d) s ln ns hJ ha hc hg hp inp lx hv hst)
+  | endLex s ln hJ hc hg hp hk =>
+    have hns : lx.outline.isStart = false := by
+      cases hs : lx.outline.isStart with
+      | false => rfl
+      | true =>
+        simp [kindGuard, PendS, PendE, hg, hk, hp, hs] at hkind
+    rcases isStart_cases lx.outline with ⟨h1, _⟩ | ⟨_, n, h, ho⟩
+    · rw [hns] at h1; cases h1
+    · refine upostY_of_postT (tag_endLex cfg (Hom.mapD Prod.fst d) s ln hJ hc hg hp ?_ inp lx n h ho)
+      intro hact
+      exact hE hg hk (by rw [hc.disp]; exact hact)
+
 end LolHtml.Thm.Full
